@@ -14,6 +14,17 @@ open CC
 theorem size_le_capacity (a : Arr) (h : a.Inv) : a.size ≤ a.capacity ∧ a.capacity ≤ a.buf.length ∧ 1 ≤ a.capacity :=
   ⟨h.1, h.2.1, h.2.2.1⟩
 
+/-- the buffer's size in bytes never wraps around `size_t`: `capacity * sizeof(void*) ≤ CC_MAX_ELEMENTS`
+in every state satisfying the invariant (constructor: A9, `expand_capacity`: A10) -/
+theorem capacity_bytes_no_wrap (a : Arr) (h : a.Inv) : a.capacity * 8 ≤ Gen.CC_MAX_ELEMENTS := by
+  have := h.2.2.2
+  omega
+
+/-- a growth step is refused with `CC_ERR_MAX_CAPACITY`, state untouched and no allocation made,
+exactly when the requested capacity would need more than `CC_MAX_ELEMENTS` bytes (A10) -/
+theorem growth_at_limit (a : Arr) (m : Mem) (h : a.AtLimit) : a.expandCapacity m = (.errMaxCapacity, a, m) :=
+  Arr.expandCapacity_max a m h
+
 /-- **every growth step strictly increases the capacity**, whatever `(size_t)(capacity * exp_factor)`
 evaluates to (a product that makes no progress falls back to `capacity + 1`) -/
 theorem growth_strict (a : Arr) (m : Mem) (hinv : a.Inv) (hlive : 0 < m.live) (h : (a.expandCapacity m).1 = .ok) :
@@ -53,9 +64,9 @@ theorem trim_capacity (a : Arr) (m : Mem) (hinv : a.Inv) (hlive : 0 < m.live) :
 `n` elements to an array with `size` elements performs at most `log2 (size + n) + 1` successful
 allocator calls — and not one more, whatever the initial capacity ≥ 1 -/
 theorem appends_realloc_log (a : Arr) (xs : List Nat) (m : Mem) (hinv : a.Inv) (hlive : 0 < m.live)
-    (hd : ∀ c, 2 * c ≤ a.grow c) (hg : ∀ c, a.grow c ≤ Gen.CC_MAX_ELEMENTS) :
+    (hd : ∀ c, 2 * c ≤ a.grow c) :
     (a.addAll xs m).2.nalloc - m.nalloc ≤ Nat.log2 (a.size + xs.length) + 1 :=
-  (Arr.addAll_realloc_log a xs m hinv hlive hd hg).1
+  (Arr.addAll_realloc_log a xs m hinv hlive hd).1
 
 /-- the stack inherits all of it: push = add -/
 theorem stack_push_capacity (s : Stack) (x : Nat) (m : Mem) (hinv : s.Inv) (hlive : 0 < m.live) :
